@@ -101,12 +101,12 @@ def c01(tier, seed):
         # torture: chaos delays, nesting, merged callers
         out.append(case('torture-%s' % name, 'gp', fl, 'plain',
                         ['--cfg=%s' % name, '--readers=4', '--updaters=3', '--gps=%d' % gps,
-                         '--tun-qs=%d' % (2 if seed % 2 else 100)] + extra, env, cpus=8, timeout=240 * scale))
+                         '--tun-qs=%d' % (2 if seed % 2 else 100), '--deep-nest=1'] + extra, env, cpus=8, timeout=240 * scale))
         out.append(case('tight-%s' % name, 'gp', fl, 'plain',
                         ['--cfg=%s-tight' % name, '--readers=1', '--updaters=1', '--gps=%d' % (gps * 3),
                          '--tight=1', '--reader-delay=0', '--nest=1', '--updaters-registered=0'] + extra,
                         env, cpus=2, timeout=240 * scale))
-        if fl in ('memb', 'bp') and not env:
+        if fl in ('memb', 'bp', 'qsbr') and not env:
             # x86-TSO store-buffer stress: the reader's rcu_read_lock() store queues behind stores to contended cache
             # lines; only the updater's sys_membarrier (these flavors have no read-side fence) makes it visible in time
             out.append(case('sbstress-%s' % name, 'gp', fl, 'plain',
@@ -132,7 +132,8 @@ FAULT_MODES = [
     ('eintr', ['--f-eintr=0.2']),
     ('wakedelay', ['--f-wake-delay=0.3']),
     ('enosys', ['--f-enosys=1']),
-    ('enosys-wait', ['--f-enosys-wait=0.6']),     # spurious ENOSYS from FUTEX_WAIT only: wakes still go to the kernel
+    ('enosys-wait', ['--f-enosys-wait=0.6']),
+    ('enosys-rare', ['--f-enosys-wait=0.01']),     # one transient ENOSYS now and then, while other threads really sleep in the kernel     # spurious ENOSYS from FUTEX_WAIT only: wakes still go to the kernel
     ('realsig', ['--sig-all=1', '--sig-period-us=60']),
     ('mixed', ['--f-spurious=0.1', '--f-eintr=0.1', '--f-wake-delay=0.1', '--sig-all=1', '--sig-period-us=200']),
 ]
@@ -260,6 +261,12 @@ def _crcu_cases(tier, seed, focus):
         out.append(case('%s-tsan-perthread' % fl, 'crcu', fl, 'tsan',
                         ['--cfg=%s-tsan-perthread' % fl, '--focus=%s' % focus, '--layout=1', '--rt=0', '--enqueuers=3', '--readers=2',
                          '--barriers=2', '--calls=%d' % (8000 * scale), '--stall-ms=90000'], {}, cpus=8, timeout=600 * scale))
+    if focus == 'c03':
+        # quiet hand-over of ordinary callbacks: they must run although nobody calls call_rcu() / rcu_barrier() afterwards
+        for fl in (('memb', 'qsbr') if tier == 'quick' else FLAVORS):
+            out.append(case('%s-handover-quiet' % fl, 'crcu', fl, 'plain',
+                            ['--cfg=%s-handover-quiet' % fl, '--mode=handover', '--ho-barrier=0', '--rounds=%d' % (40 * scale),
+                             '--hook-prob=0'], {}, cpus=4, timeout=300 * scale))
     if focus == 'c04':
         # quiet hand-over: the only traffic is one barrier and one helper destruction (a wake-up lost on the
         # hand-over path is not repaired by unrelated call_rcu() calls)
